@@ -34,6 +34,7 @@ RULE = ("K-rows: all built-in filters x call shapes x 2^(string positions) taint
 MARK = "<pAyLoAd7>"
 
 MODES = ("static", "selector", "runtime")
+SELECTOR_EXTS = ("html", "html.j2", "tmpl.xml", ".HTML", "page.HTML.J2", "html")
 
 
 # configuration axes the property's text does not exclude (sampled per render)
@@ -134,8 +135,15 @@ def render_mode(jinja2, mode, templates, main, data, axis="plain", ctx=None):
         if mode == "static":
             env = make_env(jinja2, axis, jinja2.DictLoader(ts), True, bdir)
         elif mode == "selector":
+            # the selector matches by name SUFFIX: simple, compound (several dots), upper-case and dot-prefixed extensions
+            ext = SELECTOR_EXTS[hash((main, len(ts), len(str(data)))) % len(SELECTOR_EXTS)]
+            suffix = ext.lstrip(".")
+            ts = {re.sub(r"\.html$", "." + suffix, k): re.sub(r"\.html'", "." + suffix + "'", v) for k, v in ts.items()}
+            main = re.sub(r"\.html$", "." + suffix, main)
+            other = tuple(e for e in ("txt", "html", "j2", "xml") if not suffix.lower().endswith(e))
             env = make_env(jinja2, axis, jinja2.DictLoader(ts),
-                           jinja2.select_autoescape(enabled_extensions=("html",), default_for_string=False, default=False), bdir)
+                           jinja2.select_autoescape(enabled_extensions=(ext, "never"), disabled_extensions=other[:1],
+                                                    default_for_string=False, default=False), bdir)
         else:
             # runtime-decided: environment default off, every template wrapped in {% autoescape ae_on %}
             ts = {k: (wrap_runtime_lib(v) if k.startswith("lib") else wrap_runtime(v)) for k, v in ts.items()}
@@ -287,6 +295,18 @@ REGION_SHAPES = [
      "C15:macro-compiled-outside-region-called-inside"),
     ({"mode": "off", "templates": {"main.html": "{% macro f(x) %}{{ x }}{{ caller() }}{% endmacro %}{% autoescape ae_on %}{% call f(a) %}{{ EXPR }}{% endcall %}{% endautoescape %}"}},
      "C15:macro-compiled-outside-region-called-inside"),
+    ({"mode": "off", "templates": {"main.html": "{% autoescape true %}[{% include 'inc.html' %}]{{ a }}{% endautoescape %}", "inc.html": "{{ EXPR }}"}},
+     "C15:include-inside-autoescape-region"),
+    ({"mode": "off", "templates": {"main.html": "{% autoescape ae_on %}{% for i in [a] %}{% include ['nope.html', 'inc.html'] %}{% endfor %}{% endautoescape %}",
+                                   "inc.html": "{{ i }}{{ EXPR }}"}},
+     "C15:include-inside-autoescape-region"),
+    ({"mode": "selector", "templates": {"main.html": "{% extends 'base.txt' %}{% block b %}[{{ super() }}]{{ a }}{% endblock %}",
+                                        "base.txt": "{% block b %}{{ EXPR }}{% endblock %}"}},
+     "C15:super-from-unescaped-parent"),
+    ({"mode": "selector", "templates": {"main.html": "{% extends 'mid.html' %}{% block b %}{{ super() }}{% endblock %}",
+                                        "mid.html": "{% extends 'base.txt' %}{% block b %}<{{ super() }}>{% endblock %}",
+                                        "base.txt": "{% block b %}{{ EXPR }}{% endblock %}"}},
+     "C15:super-from-unescaped-parent"),
     ({"mode": "selector", "templates": {"main.html": "{% import 'm.txt' as m %}{{ m.f(a) }}{{ EXPR }}",
                                         "m.txt": "{% macro f(x) %}{{ x }}{% endmacro %}"}},
      "C15:macro-imported-from-unescaped-template"),
@@ -415,10 +435,13 @@ def run(ctx):
     # ---------------- T: translator tie for the output path of the code generator
     translator_tie(ctx)
 
+    shared_bccache_probe(ctx, jinja2)
+
     # ---------------- K-sel: select_autoescape
     sel_cases = []
-    exts = ["html", "htm", "xml", "txt", "j2", "HTML", ".html", "tar.gz"]
-    names = ["a.html", "A.HTML", "x.txt", "noext", "b.htm", "c.xml.j2", "d.html.txt", "html", ".html", "e.tar.gz", "f.XmL", ""]
+    exts = ["html", "htm", "xml", "txt", "j2", "HTML", ".html", "tar.gz", "html.j2", "tmpl.xml", "a.b.c"]
+    names = ["a.html", "A.HTML", "x.txt", "noext", "b.htm", "c.xml.j2", "d.html.txt", "html", ".html", "e.tar.gz", "f.XmL", "",
+             "p.html.j2", "q.TMPL.XML", "dir/r.a.b.c", "s.html.j2.txt", "t..html", "u.j2", "html.j2", ".tar.gz"]
     for _ in range(ctx.size(300, 3000)):
         en = ctx.rng.sample(exts, ctx.rng.randint(0, 3))
         di = ctx.rng.sample(exts, ctx.rng.randint(0, 2))
@@ -440,8 +463,17 @@ def run(ctx):
         ctx.case(key=("sel", repr(c)) if nm else None)
         ctx.count("k_sel")
         if real != m:
-            ctx.model_mismatch("K-sel select_autoescape", {"enabled": en, "disabled": di, "dfs": dfs, "default": dflt, "name": nm},
-                               m, real, None)
+            of = None
+            if m == "1" and nm:
+                # the documented selector enables this name: a template of that name must escape its data
+                try:
+                    envs = jinja2.Environment(loader=jinja2.DictLoader({nm: "{{ d }}"}), autoescape=jinja2.select_autoescape(en, di, dfs, dflt))
+                    o = envs.get_template(nm).render(d="<b>" + MARK)
+                    of = judge_output(o)
+                except Exception as e:
+                    of = f"rendering raised {type(e).__name__}"
+            ctx.model_mismatch("K-sel select_autoescape", {"kind": "selector", "enabled": en, "disabled": di, "dfs": dfs, "default": dflt, "name": nm},
+                               m, real, of, "C15:select-autoescape")
         else:
             ctx.validated()
 
@@ -495,9 +527,48 @@ def run(ctx):
             ctx.reject({"kind": "set", "mode": "static", "templates": srcs, "data": dict({f"n{k}": v for k, v in d.items()},
                         **{f"n{k}": v for k, v in dl.items()}, ae_flag=True)}, w, "C15:template-set-2")
 
+    # ---------------- O-finalize: environment.finalize x (static | constant | runtime-decided autoescape) x template text.
+    # Template data is documented never to go through finalize: with a finalize that brackets every value, no
+    # template text may appear bracketed (bracketing changes emptiness of values, so outputs are not compared further).
+    from markupsafe import Markup as _Mk
+
+    def _fin(v):
+        if hasattr(v, "__html__"):
+            return _Mk("\u2039") + v + _Mk("\u203a")
+        return "\u2039" + str(v) + "\u203a"
+    for i in range(ctx.size(1000, 15000)):
+        g = L.LGen(ctx.rng, neutral=True, safe_ok=False, text=("fin",), ae="01f", depth=ctx.rng.choice([1, 2, 2]))
+        t = g.program(wrap_flag=ctx.rng.random() < 0.4)
+        if L.features(t) & {"sD", "sA", "sB", "sX"}:
+            continue      # a macro / call / set / filter block turns template text into a VALUE, which is finalized
+        d, dl = g.data()
+        src = L.pr_body(t)
+        if ctx.rng.random() < 0.3:
+            src = re.sub(r"(TX[abd][ ;]?)", r"{% raw %}\1{% endraw %}", src, count=2)
+        data = {f"n{k}": v for k, v in d.items()}
+        data.update({f"n{k}": v for k, v in dl.items()})
+        b0, flag = ctx.rng.random() < 0.5, ctx.rng.random() < 0.5
+        data[L.FLAG_NAME] = flag
+        try:
+            out_f = jinja2.Environment(autoescape=b0, finalize=_fin).from_string(src).render(data)
+            out_p = jinja2.Environment(autoescape=b0).from_string(src).render(data)
+        except Exception:
+            ctx.case(); ctx.count("o_finalize_error")
+            continue
+        nt = "TX" in out_p and "\u2039" in out_f
+        ctx.case(key=("ofin", src, repr(data), b0) if nt else None)
+        ctx.count("o_finalize")
+        w = None
+        if "\u2039TX" in out_f or re.search(r"TX\w[ ;\]]?\u203a", out_f):
+            w = f"template text went through environment.finalize: {out_f[:160]!r}"
+        if w:
+            ctx.reject({"kind": "finalize", "source": src, "data": data, "autoescape": b0}, w, "C15:finalize-template-data")
+        else:
+            ctx.validated()
+
     # ---------------- O-T: programs of T inside the hypotheses, three modes
     progs = []
-    for i in range(ctx.size(400, 7000)):
+    for i in range(ctx.size(300, 7000)):
         g = L.LGen(ctx.rng, neutral=False, safe_ok=False, text=("safe",), ae="1f", depth=3, marker=MARK)
         t = g.program()
         d, dl = g.data()
@@ -537,7 +608,7 @@ def run(ctx):
     n_expr = 0
     for e in EXPRS:
         for wi, wsrc in enumerate(WRAPPERS):
-            if ctx.tier == "quick" and ctx.rng.random() > 0.2 and wi != 0:
+            if ctx.tier == "quick" and ctx.rng.random() > 0.16 and wi != 0:
                 continue
             if ("{%% filter" in wsrc or "set r |" in wsrc) and any(x in e for x in ("urlize", "xmlattr", "tojson")):
                 continue      # a filter block would rewrite the documented markup itself
@@ -577,6 +648,33 @@ def run(ctx):
             w = judge_output(out)
             if w:
                 ctx.reject({"kind": "region", "mode": shape["mode"], "templates": ts, "data": data}, w, sig)
+
+
+def shared_bccache_probe(ctx, jinja2):
+    """two environments with different autoescape settings sharing one bytecode cache directory: the cache key is
+    name + source, so the autoescaped environment can load code compiled without escaping (C27's recorded
+    finding C27-shared-cache-ignores-options, re-observed here as a C15 leak)"""
+    import shutil
+    import tempfile
+    d = tempfile.mkdtemp(prefix="c15_bcc_", dir=ctx.bdir)
+    try:
+        loader = jinja2.DictLoader({"t.html": "{{ a }}|{{ a ~ b }}"})
+        data = {"a": "<b>" + MARK, "b": "'x"}
+        e1 = jinja2.Environment(loader=loader, autoescape=False, bytecode_cache=jinja2.FileSystemBytecodeCache(d))
+        e1.get_template("t.html").render(**data)
+        e2 = jinja2.Environment(loader=loader, autoescape=True, bytecode_cache=jinja2.FileSystemBytecodeCache(d))
+        out = e2.get_template("t.html").render(**data)
+    except Exception:
+        out = None
+    finally:
+        shutil.rmtree(d, ignore_errors=True)
+    ctx.case(key=("bccache-shared",))
+    ctx.count("probe_shared_bccache")
+    w = judge_output(out)
+    if w:
+        ctx.reject({"kind": "shared-bccache"}, w, "C15:shared-bytecode-cache-different-autoescape")
+    else:
+        ctx.validated()
 
 
 def translator_tie(ctx):
@@ -653,6 +751,15 @@ def replay(ctx, data):
         print("output:", repr(out), "\noracle:", w)
         if w:
             ctx.reject(case, w, data.get("signature"))
+    elif case.get("kind") == "selector":
+        nm = case["name"]
+        envs = jinja2.Environment(loader=jinja2.DictLoader({nm: "{{ d }}"}),
+                                  autoescape=jinja2.select_autoescape(case["enabled"], case["disabled"], case["dfs"], case["default"]))
+        out = envs.get_template(nm).render(d="<b>" + MARK)
+        w = judge_output(out)
+        print("output:", repr(out), "\noracle:", w)
+        if w:
+            ctx.reject(case, w, "C15:select-autoescape")
     elif case.get("kind") in ("set", "expr"):
         out = render_mode(jinja2, case["mode"], case["templates"], "main.html", case["data"])
         w = judge_expr(case.get("expr", ""), "", out) if out is not None else None
